@@ -86,6 +86,11 @@ def gen_union(rnd):
             limit = rnd.randint(0, 6)
             if rnd.random() < 0.5:
                 offset = rnd.randint(0, 4)
+        elif i < nb - 1 and rnd.random() < 0.12:
+            # a parenthesised inner union with a window of its own: `(A UNION B LIMIT n) UNION C` cuts A ++ B before C is appended
+            limit = rnd.randint(0, 4)
+            if rnd.random() < 0.4:
+                offset = rnd.randint(0, 2)
         q = ["union", [], q, branches[i], distinct, [], limit, offset, {}]
     if rnd.random() < 0.15:
         # the chain under ONE WITH whose every branch reads a CTE holding its table (the WITH of a chain belongs to all branches,
